@@ -600,6 +600,9 @@ func (r *RigS) body(op *SOp) string {
 			if sdb == "" {
 				sdb = "default"
 			}
+			if sp.MapSrcDB != "" {
+				sdb = sp.MapSrcDB
+			}
 			nm := map[string]any{"source_db": sdb, "target_db": sp.MapDB}
 			if len(sp.MapColl) > 0 {
 				nm["collection_mapping"] = sp.MapColl
